@@ -91,7 +91,7 @@ def known_witness(tmp):
     return out, None
 
 
-SKIP_SAVE_INTERRUPTS = True
+SKIP_SAVE_INTERRUPTS = False
 
 
 def model_outcomes(case):
@@ -193,8 +193,8 @@ def real_signal_runs():
                 viol.append(dict(what=f'{tag}: running tasks {r["started"]} were not drained and cached (finished {r["finished"]}, cached {r["cached"]})',
                                  replay=dict(kind='real-signal', rec=r)))
         else:
-            if r['finished_later'] or r['elapsed'] > 2.3:
-                viol.append(dict(what=f'{tag}: running tasks were not terminated at once (finished later: {r["finished_later"]}, run_tasks took {r["elapsed"]}s)',
+            if r['finished_later'] or r['elapsed'] > 1.9:
+                viol.append(dict(what=f'{tag}: running tasks were not terminated at once (finished later: {r["finished_later"]}, run_tasks ended {r["elapsed"]}s after the first signal; the tasks need 2.5s)',
                                  replay=dict(kind='real-signal', rec=r)))
     shutil.rmtree(tmp, ignore_errors=True)
     return out, viol
